@@ -942,18 +942,21 @@ func (s *mvSess) compact(kv map[string]string, emit func(string, string), fail f
 	if this >= s.levels {
 		this = s.levels - 1
 	}
+	bd := ""
 	if kvInt(kv, "backdate", 1) != 0 {
 		badger.VerifBackdate(s.db, 2*time.Hour)
+	} else {
+		bd = " backdate=0" // tables created since the last compaction op stay "young" for the L0->L0 picker
 	}
 	pre := s.snapshotReads()
 	badger.VerifTakeEvents()
 	err := badger.VerifCompact(s.db, id, this, 1.5, adj, nil)
 	if err != nil {
-		emit(fmt.Sprintf("compact-none this=%d id=%d adj=%s", this, id, adjS), "none")
+		emit(fmt.Sprintf("compact-none this=%d id=%d adj=%s%s", this, id, adjS, bd), "none")
 		s.st.Inc("compact:none")
 		return
 	}
-	s.emitEventsX(emit, fail, fmt.Sprintf("id=%d adj=%s", id, adjS), false)
+	s.emitEventsX(emit, fail, fmt.Sprintf("id=%d adj=%s%s", id, adjS, bd), false)
 	s.judgeStable(fmt.Sprintf("compaction of level %d", this), pre, fail)
 	emit("dump", s.dump())
 	s.judgeStructure(fail)
@@ -1735,7 +1738,11 @@ func genMvccSession(rng *rand.Rand, st *Stats) []string {
 		case r < 96:
 			adj := pick(rng, "1.5", "1.5", "0.5", "0")
 			if rng.Intn(3) == 0 {
-				ops = append(ops, fmt.Sprintf("compact this=0 id=%d adj=%s", rng.Intn(2), adj))
+				o := fmt.Sprintf("compact this=0 id=%d adj=%s", rng.Intn(2), adj)
+				if rng.Intn(4) == 0 {
+					o += " backdate=0" // the tables flushed since the last compaction op count as young
+				}
+				ops = append(ops, o)
 			} else {
 				ops = append(ops, fmt.Sprintf("compact pick=%d id=%d adj=%s", rng.Intn(16), rng.Intn(2), adj))
 			}
